@@ -65,6 +65,7 @@ var c15Bodies = []struct{ name, text string }{
 	{"form semicolon", `f=1;x=2`},
 	{"form single list", `l=only&x=form-x`},
 	{"json long, syntax error early", `{"j":"json-j" "x":"` + strings.Repeat("y", 700) + `"}`},
+	{"multipart", "--xyz\r\nContent-Disposition: form-data; name=\"f\"\r\n\r\nmp-f\r\n--xyz\r\nContent-Disposition: form-data; name=\"q\"\r\n\r\nmp-q\r\n--xyz\r\nContent-Disposition: form-data; name=\"l\"\r\n\r\nmp-l\r\n--xyz--\r\n"},
 	{"json long valid object", `{"j":"json-j","x":"` + strings.Repeat("y", 700) + `","pad":"` + strings.Repeat("p", 900) + `"}`},
 }
 
@@ -100,6 +101,9 @@ func c15Scenario(x *mc.X) *mc.Outcome {
 	reqX := x.Bool("x required")
 	ptrRoot := x.Bool("schema is Ptr(Struct)")
 	stream := x.Bool("body of unknown length")
+	// what happened to the request before zog saw it: nothing, or a middleware that looked at the form
+	// (net/http then caches the parsed values on the request: r.Form, r.PostForm, r.MultipartForm)
+	middleware := x.Choose(3, "middleware")
 	if _, ok := c15Skels[reqX]; !ok {
 		c15Skels[reqX] = c15Skel(reqX)
 	}
@@ -130,6 +134,16 @@ func c15Scenario(x *mc.X) *mc.Outcome {
 		}
 		return r
 	}
+	mkSeen := func() *http.Request {
+		r := mkReq()
+		switch middleware {
+		case 1:
+			r.ParseForm()
+		case 2:
+			r.FormValue("csrf") // parses urlencoded and multipart bodies
+		}
+		return r
+	}
 	// real run
 	rec := &Recorder{Light: true}
 	schema := BuildZog(root, rec)
@@ -137,9 +151,9 @@ func c15Scenario(x *mc.X) *mc.Outcome {
 	fillSentinel(dest.Elem(), root)
 	var orders [][]int
 	installOrderRecorder(x, zh.OrderRev, &orders)
-	real := RunParse(schema, zhttp.Request(mkReq()), dest)
+	real := RunParse(schema, zhttp.Request(mkSeen()), dest)
 	zh.Reset()
-	desc := fmt.Sprintf("%s Content-Type=%q body[%s]=%q query[%s]=%q x.required=%v schema-is-pointer=%v unknown-length=%v", method, ct.value, body.name, clip(body.text), query.name, query.raw, reqX, ptrRoot, stream)
+	desc := fmt.Sprintf("%s Content-Type=%q body[%s]=%q query[%s]=%q x.required=%v schema-is-pointer=%v unknown-length=%v middleware(0 none,1 ParseForm,2 FormValue)=%d", method, ct.value, body.name, clip(body.text), query.name, query.raw, reqX, ptrRoot, stream, middleware)
 	out := &mc.Outcome{Traces: 1, Nontrivial: true}
 	out.Sample = map[string]any{"request": desc, "issues": real.IssueStrings(), "dest": canonNoTypes(dest.Elem())}
 	fail := func(key, what, exp, got string) *mc.Outcome {
@@ -177,7 +191,9 @@ func c15Scenario(x *mc.X) *mc.Outcome {
 			src = &specSrc{tag: "json", m: m}
 		}
 	case "form":
-		clone := mkReq()
+		// net/http reports a malformed form once, to whoever parses first; a request a middleware has already
+		// parsed is, for every later reader, the form net/http cached on it
+		clone := mkSeen()
 		if err := clone.ParseForm(); err != nil {
 			decodeIssue = "invalid_form"
 		} else {
